@@ -53,19 +53,47 @@ Definition psnap_same (a b : psnap) : bool :=
 
 Record pcase := { p_ds : bool; p_build : list op; p_reads : list read }.
 
-Definition pobs := (psnap * list (psnap * bool))%type.
+(* ---- the store methods a read may call (recorded by the harness's proxy store) ---- *)
+(* codes of the methods of rdflib.store.Store, as the recording proxy numbers them *)
+Definition M_TRIPLES : N := 1.
+Definition M_TRIPLES_CHOICES : N := 2.
+Definition M_CONTEXTS : N := 3.
+Definition M_LEN : N := 4.
+Definition M_NAMESPACES : N := 5.
+Definition M_NAMESPACE : N := 6.
+Definition M_PREFIX : N := 7.
+Definition M_QUERY : N := 8.            (* Store.query: Memory refuses (NotImplementedError), the engine takes over *)
+Definition M_BIND : N := 20.            (* prefix table only: not part of the property's state *)
+Definition M_ADD_GRAPH_DEFAULT : N := 21.  (* add_graph(<the default graph>): Dataset.graphs()/contexts() re-creating it *)
+(* everything else is a write: 30 add, 31 addN, 32 remove, 33 add_graph(other), 34 remove_graph,
+   35 commit, 36 rollback, 37 open, 38 close, 39 destroy, 40 update, 41 gc, 42 create, 43 attribute assignment,
+   44 anything unknown *)
+
+Definition read_meths : list N :=
+  [M_TRIPLES; M_TRIPLES_CHOICES; M_CONTEXTS; M_LEN; M_NAMESPACES; M_NAMESPACE; M_PREFIX; M_QUERY].
+Definition benign_meths : list N := [M_BIND; M_ADD_GRAPH_DEFAULT].
+Definition call_ok (c : N) : bool := memb N.eqb c (read_meths ++ benign_meths).
+
+(* per read: the snapshot after the first call, whether the second call
+   answered the same and changed nothing, and the (distinct) store methods
+   that were called during both calls *)
+Record rentry := { e_snap : psnap; e_same : bool; e_calls : list N }.
+
+Definition pobs := (psnap * list rentry)%type.
 
 Definition build (d : ds) (ops : list op) : ds := fold_left (fun d o => fst (do_op d o)) ops d.
 
-(* every read is issued twice: the snapshot after the first call, and whether
-   the second call answered the same and left the dataset as it was *)
-Fixpoint read_run (d : ds) (rs : list read) : list (psnap * bool) :=
+(* every read is issued twice.  The model does not say which store methods an
+   opaque read calls: its entry carries none, and [obs_eqb] does not compare
+   them; the specification checker judges the recorded ones. *)
+Fixpoint read_run (d : ds) (rs : list read) : list rentry :=
   match rs with
   | [] => []
   | r :: rest =>
       let (d1, o1) := do_read d r in
       let (d2, o2) := do_read d1 r in
-      (snap_of d1, pout_eqb o1 o2 && psnap_same (snap_of d1) (snap_of d2)) :: read_run d2 rest
+      {| e_snap := snap_of d1; e_same := pout_eqb o1 o2 && psnap_same (snap_of d1) (snap_of d2); e_calls := [] |}
+      :: read_run d2 rest
   end.
 
 Definition model_obs (c : pcase) : pobs :=
@@ -73,15 +101,16 @@ Definition model_obs (c : pcase) : pobs :=
 
 Definition obs_eqb (a b : pobs) : bool :=
   psnap_same (fst a) (fst b)
-  && list_eqb (fun x y => psnap_same (fst x) (fst y) && Bool.eqb (snd x) (snd y)) (snd a) (snd b).
+  && list_eqb (fun x y => psnap_same (e_snap x) (e_snap y) && Bool.eqb (e_same x) (e_same y)) (snd a) (snd b).
 
 (* Specification: the state the reads start from is the one the C02 mapping
    prescribes for the building history; every read leaves the dataset as it
-   was just before it; every read answers the same twice. *)
-Fixpoint pure_run (prev : psnap) (l : list (psnap * bool)) : bool :=
+   was just before it; every read answers the same twice; every read talks to
+   the store through read methods only (or the two justified benign ones). *)
+Fixpoint pure_run (prev : psnap) (l : list rentry) : bool :=
   match l with
   | [] => true
-  | (s, f) :: r => psnap_same prev s && f && pure_run s r
+  | e :: r => psnap_same prev (e_snap e) && e_same e && forallb call_ok (e_calls e) && pure_run (e_snap e) r
   end.
 
 Definition spec_ok (c : pcase) (o : pobs) : bool :=
@@ -93,3 +122,88 @@ Definition spec_ok (c : pcase) (o : pobs) : bool :=
 (* well-formed: the building history consists of writes *)
 Definition pwf (c : pcase) : Prop :=
   forallb (fun o => negb (is_read o)) (p_build c) = true.
+
+(* ------------------------------------------------------------------ *)
+(* Read programs: the store's READ interface as a small language.  A
+   serialiser, a query evaluation, a comparison, an iteration is - as far as
+   the store is concerned - a program of this shape: it asks the store
+   something, computes (arbitrarily: the continuations are Gallina functions)
+   and asks again.  The only two non-reads the catalogue of reads was seen to
+   issue are included with their effect: registering the default graph
+   (Dataset.graphs()/contexts()) and binding a prefix. *)
+Record rstate := { r_ds : ds; r_ns : list (N * N) }.   (* dataset model + the store's prefix table *)
+
+(* Memory.contexts(triple): every known graph, or the graphs holding the triple *)
+Definition st_contexts (s : store) (ot : option triple) : list cid :=
+  match ot with None => known s | Some t => ctxs_of t (quads s) end.
+
+Inductive prog (A : Type) : Type :=
+| PRet (a : A)
+| PTriples (p : pat) (oc : option cid) (k : list (triple * list cid) -> prog A)  (* triples / triples_choices *)
+| PContexts (ot : option triple) (k : list cid -> prog A)                        (* contexts *)
+| PLen (oc : option cid) (k : N -> prog A)                                       (* __len__ *)
+| PNamespaces (k : list (N * N) -> prog A)                                       (* namespaces / namespace / prefix *)
+| PTouchDefault (k : prog A)                                                     (* add_graph(<default graph>) *)
+| PBind (pfx ns : N) (k : prog A).                                               (* bind *)
+Arguments PRet {A} a.
+Arguments PTriples {A} p oc k.
+Arguments PContexts {A} ot k.
+Arguments PLen {A} oc k.
+Arguments PNamespaces {A} k.
+Arguments PTouchDefault {A} k.
+Arguments PBind {A} pfx ns k.
+
+Definition bind_ns (pfx ns : N) (t : list (N * N)) : list (N * N) :=
+  (pfx, ns) :: filter (fun x => negb (N.eqb (fst x) pfx)) t.
+
+Definition touch0 (s : rstate) : rstate :=
+  {| r_ds := set_st (r_ds s) (st_add_graph (st (r_ds s)) 0); r_ns := r_ns s |}.
+
+Fixpoint run {A} (pr : prog A) (s : rstate) : rstate * A :=
+  match pr with
+  | PRet a => (s, a)
+  | PTriples p oc k => run (k (st_triples (st (r_ds s)) p oc)) s
+  | PContexts ot k => run (k (st_contexts (st (r_ds s)) ot)) s
+  | PLen oc k => run (k (st_len (st (r_ds s)) oc)) s
+  | PNamespaces k => run (k (r_ns s)) s
+  | PTouchDefault k => run k (touch0 s)
+  | PBind a b k => run k {| r_ds := r_ds s; r_ns := bind_ns a b (r_ns s) |}
+  end.
+
+(* programs that bind no prefix / that issue reads only *)
+Inductive bind_free {A} : prog A -> Prop :=
+| bf_ret a : bind_free (PRet a)
+| bf_triples p oc k : (forall x, bind_free (k x)) -> bind_free (PTriples p oc k)
+| bf_contexts ot k : (forall x, bind_free (k x)) -> bind_free (PContexts ot k)
+| bf_len oc k : (forall x, bind_free (k x)) -> bind_free (PLen oc k)
+| bf_ns k : (forall x, bind_free (k x)) -> bind_free (PNamespaces k)
+| bf_touch k : bind_free k -> bind_free (PTouchDefault k).
+
+Inductive quiet {A} : prog A -> Prop :=
+| q_ret a : quiet (PRet a)
+| q_triples p oc k : (forall x, quiet (k x)) -> quiet (PTriples p oc k)
+| q_contexts ot k : (forall x, quiet (k x)) -> quiet (PContexts ot k)
+| q_len oc k : (forall x, quiet (k x)) -> quiet (PLen oc k)
+| q_ns k : (forall x, quiet (k x)) -> quiet (PNamespaces k).
+
+(* the default graph is registered with the store *)
+Definition settled (s : rstate) : Prop := In 0 (known (st (r_ds s))).
+
+(* which operation of the language a recorded store method is *)
+Inductive okind := KTriples | KContexts | KLen | KNamespaces | KTouch | KBind | KRefused.
+Definition meth_kind (c : N) : option okind :=
+  if N.eqb c M_TRIPLES || N.eqb c M_TRIPLES_CHOICES then Some KTriples
+  else if N.eqb c M_CONTEXTS then Some KContexts
+  else if N.eqb c M_LEN then Some KLen
+  else if N.eqb c M_NAMESPACES || N.eqb c M_NAMESPACE || N.eqb c M_PREFIX then Some KNamespaces
+  else if N.eqb c M_QUERY then Some KRefused
+  else if N.eqb c M_BIND then Some KBind
+  else if N.eqb c M_ADD_GRAPH_DEFAULT then Some KTouch
+  else None.
+
+(* three reads of the front end, written as programs *)
+Definition prog_quads (p : pat) : prog (list quad) :=
+  PTriples p None (fun l => PRet (flat_map (fun x => map (fun g => (fst x, g)) (snd x)) l)).
+Definition prog_graphs (dataset : bool) : prog (list cid) :=
+  PContexts None (fun k => if dataset && negb (memb N.eqb 0 k) then PTouchDefault (PRet (k ++ [0])) else PRet k).
+Definition prog_len : prog N := PLen None (fun n => PRet n).
